@@ -84,7 +84,8 @@ def generate(rng, tier):
         op = ops[opidx]
         verbose = op.get('verbose', 0) if op['op'] != 'cli' else 3
         if r2 < 0.35 or not pts:
-            plan.append({'dt': dtid, 'k': k, 'trace_frac': rng.random(), 'exc': rng.choice(TRACE_EXCS)})
+            plan.append({'dt': dtid, 'k': k, 'trace_frac': rng.random(), 'exc': rng.choice(TRACE_EXCS),
+                         'trace_site': rng.choice(['d', 'd', 'p', 'x', 't', 'm', 'any'])})
         elif r2 < 0.45 and verbose >= 2:
             plan.append({'dt': dtid, 'k': k, 'stream_write': rng.randint(0, 3),
                          'exc': rng.choice(['BlockingIOError', 'UnicodeEncodeError', 'OSError'])})
